@@ -32,6 +32,29 @@ def rnd_F(g, n, style):
     return g.mat(n, n)
 
 
+def near_duplicates(g, means, Ps):
+    """now and then make a component an exact or nearly exact copy of its predecessor (catches 'reuse the previous
+    component's result when the input looks the same' shortcuts)"""
+    r = g.r
+    if len(means) < 2 or r.random() > 0.3:
+        return "none"
+    i = r.randrange(1, len(means))
+    kind = r.choice(["equal", "equal-cov", "tiny-diff", "equal-mean", "equal-mean", "approx-equal-mean"])
+    if kind == "equal-mean":            # same mean, different covariance
+        means[i] = list(means[i - 1])
+        return kind
+    if kind == "approx-equal-mean":
+        means[i] = [v * (1 + 2.0 ** -30) for v in means[i - 1]]
+        return kind
+    Ps[i] = [list(row) for row in Ps[i - 1]]
+    if kind == "equal":
+        means[i] = list(means[i - 1])
+    elif kind == "tiny-diff":
+        means[i] = [v * (1 + 2.0 ** -30) for v in means[i - 1]]
+        Ps[i] = [[v * (1 + 2.0 ** -28) for v in row] for row in Ps[i]]
+    return kind
+
+
 def round_mat(M):
     """exact rational matrix -> nearest doubles (as floats)"""
     return [[float(x) for x in row] for row in M]
@@ -53,6 +76,7 @@ def ukfp_case(g, tier):
     Ps = [U.scale_cov(U.rnd_psd(g, n, pstyle), d) for _ in range(k)]
     means = [[v * d[i] for i, v in enumerate(g.vec(n))] for _ in range(k)]
     u = [v * d[i] for i, v in enumerate(g.vec(n))] if exo else [0.0] * n
+    dup = near_duplicates(g, means, Ps)
     outw = [r.uniform(0.01, 1.0) for _ in range(k)]
     if variant == 0:
         Q = U.scale_cov(U.rnd_psd(g, n, r.choice(["full", "full", "dyadic", "singular", "zero"])), d)
@@ -64,7 +88,7 @@ def ukfp_case(g, tier):
         Gf, Qf = U.fmat(G), U.fmat(Q)
         Qeff = round_mat(vlib.mmul(vlib.mmul(Gf, Qf), vlib.mT(Gf)))
     meta = {"op": "ukfp", "variant": variant, "n": n, "nz": nz, "k": k, "alpha": alpha, "beta": beta, "kappa": kappa, "skip": skip, "exo": exo,
-            "F": F, "G": G, "Q": Q, "Qeff": Qeff, "u": u, "means": means, "Ps": Ps, "outw": outw, "pstyle": pstyle, "scale": skind}
+            "F": F, "G": G, "Q": Q, "Qeff": Qeff, "u": u, "means": means, "Ps": Ps, "outw": outw, "pstyle": pstyle, "scale": skind, "dup": dup}
     return meta
 
 
@@ -112,6 +136,7 @@ def ukfc_case(g, tier):
     sc = 2.0 ** {"unit": 0, "tiny": -27, "small": -13, "large": 10, "huge": 23}[skind]
     Ps = [U.scale_cov(U.rnd_psd(g, n, pstyle), [sc] * n) for _ in range(k)]
     means = [[v * sc for v in g.vec(n)] for _ in range(k)]
+    dup = near_duplicates(g, means, Ps)
     hstyle = r.choice(["general", "general", "general", "dyadic", "zerorow", "rank1", "zero"])
     if hstyle == "dyadic":
         H = [[g.dyadic(-2, 2, 3) for _ in range(n)] for _ in range(m)]
@@ -141,7 +166,7 @@ def ukfc_case(g, tier):
         Reff = round_mat(vlib.mmul(vlib.mmul(Df, Rf), vlib.mT(Df)))
     alpha, beta, kappa = U.rnd_params(g, n + nz)
     meta = {"op": "ukfc", "variant": variant, "n": n, "nz": nz, "m": m, "k": k, "alpha": alpha, "beta": beta, "kappa": kappa, "fail": fail, "online": online,
-            "H": H, "D": D, "R": R, "Reff": Reff, "y": y, "means": means, "Ps": Ps, "outw": outw, "pstyle": pstyle, "hstyle": hstyle, "scale": skind}
+            "H": H, "D": D, "R": R, "Reff": Reff, "y": y, "means": means, "Ps": Ps, "outw": outw, "pstyle": pstyle, "hstyle": hstyle, "scale": skind, "dup": dup}
     return meta
 
 
@@ -540,6 +565,8 @@ def check_ukfc(meta, h, stats, notes):
         X = None
     if t[p] != "in-same":
         notes["input_modified"] = notes.get("input_modified", 0) + 1
+    if "lik2-differs" in t[p:]:
+        return [("prop", "likelihood-query-not-idempotent", "UKFCorrection::getLikelihood() asked twice after the same correction gives two different answers")], None, None
     if uw != kw:
         notes["correct_weights_differ_ukf_vs_kf"] = notes.get("correct_weights_differ_ukf_vs_kf", 0) + 1
     o = {"um": um, "uc": uc, "km": km, "kc": kc, "ulik": ulik, "klik": klik, "X": X}
@@ -697,7 +724,7 @@ def run(ctx):
     binary = vlib.build_harness("h_ut")
     stats, hist, notes = {}, {}, {}
     g = ctx.gen("ukf")
-    NP, NC = ctx.n(90, 600), ctx.n(110, 800)
+    NP, NC = ctx.n(70, 600), ctx.n(90, 800)
     objects = []
     for mk in [ukfp_case] * NP + [ukfc_case] * NC:
         st = [mk(g, ctx.tier)]
@@ -785,6 +812,8 @@ def run(ctx):
         hist["components=%d" % meta["k"]] = hist.get("components=%d" % meta["k"], 0) + 1
         hist["P=" + meta["pstyle"]] = hist.get("P=" + meta["pstyle"], 0) + 1
         hist["scale=" + meta.get("scale", "?")] = hist.get("scale=" + meta.get("scale", "?"), 0) + 1
+        if meta.get("dup", "none") != "none" and meta.get("step", 0) == 0:
+            hist["near-duplicate components:" + meta["dup"]] = hist.get("near-duplicate components:" + meta["dup"], 0) + 1
         first.append((probs, o, Bs))
         if o is not None and Bs is not None:
             lines = ukfp_lines(meta, Bs) if meta["op"] == "ukfp" else ukfc_lines(meta, Bs)
